@@ -81,7 +81,11 @@ def oracle_moments(rng, d):
 def run(ctx):
     cases = []
     for k in range(ctx.n(220, 2500)):
-        d = sagecorr.build_dual(ctx.rng)
+        sagecorr.FORCE_TINY[0] = (k % 40 == 7)      # a few instances with every exponent of size 2^-45 (far below any absolute threshold)
+        try:
+            d = sagecorr.build_dual(ctx.rng)
+        finally:
+            sagecorr.FORCE_TINY[0] = False
         if 'error' in d:
             ctx.count('construction_error', d['error'][:40])
             continue
